@@ -226,6 +226,34 @@ pub fn progress(req: &str) {
     if let Ok(path) = std::env::var("VERIF_PROGRESS") {
         let _ = std::fs::write(path, req);
     }
+    if let Ok(mut g) = CURRENT.lock() {
+        *g = Some((std::time::Instant::now(), req.to_string()));
+    }
+}
+
+static CURRENT: std::sync::Mutex<Option<(std::time::Instant, String)>> = std::sync::Mutex::new(None);
+
+/// a structured case that does not finish (deadlock / livelock of the code under test, e.g. after an
+/// out-of-range access) would stall the whole check: the watchdog aborts the process instead, and
+/// ./check names the case from the progress file
+pub fn start_watchdog(limit_s: u64) {
+    std::thread::spawn(move || loop {
+        std::thread::sleep(std::time::Duration::from_secs(2));
+        let cur = CURRENT.lock().ok().and_then(|g| g.clone());
+        if let Some((t0, req)) = cur {
+            if t0.elapsed().as_secs() > limit_s {
+                eprintln!("WATCHDOG: a case did not finish within {} s: {}", limit_s, trunc(&req, 300));
+                std::process::abort();
+            }
+        }
+    });
+}
+
+/// the structured part of a run is over (bulk sections have no per-case deadline)
+pub fn progress_done() {
+    if let Ok(mut g) = CURRENT.lock() {
+        *g = None;
+    }
 }
 
 /// true while ./check bisects a process-killing case: only the shardable per-record sections run
@@ -242,6 +270,7 @@ pub fn run_section(
     run_impl: &ImplFn<'_>,
     judge: &JudgeFn<'_>,
 ) {
+    progress_done();
     let base = CASE_OFFSET.fetch_add(cases.len(), std::sync::atomic::Ordering::SeqCst);
     let mut cases = cases;
     let mut sequential = false;
